@@ -6,6 +6,7 @@ import (
 
 	schema "github.com/jsightapi/jsight-schema-core"
 	"github.com/jsightapi/jsight-schema-core/bytes"
+	"github.com/jsightapi/jsight-schema-core/kit"
 	"github.com/jsightapi/jsight-schema-core/notations/jschema"
 	"github.com/jsightapi/jsight-schema-core/notations/regex"
 	"github.com/jsightapi/jsight-schema-core/rules/enum"
@@ -427,6 +428,15 @@ func (c *Catalog) AddType(
 		s, _ := coreUserTypes.Get(name)
 		es := newExchangeJSightSchema(s.(*jschema.JSchema))
 		es.catalogUserTypes = c.UserTypes
+		// The example is a part of the serialized schema, if it can't be built the
+		// error have to be found here, not during the serialization of the catalog.
+		if _, err := es.Example(); err != nil {
+			var e kit.Error
+			if errors.As(err, &e) {
+				return d.BodyErrorIndex(e.Message(), e.Index())
+			}
+			return d.KeywordError(err.Error())
+		}
 		userType.Schema = es
 	case notation.SchemaNotationRegex:
 		s, _ := coreUserTypes.Get(name)
